@@ -23,6 +23,13 @@
    whose digester produced the key (the harness' digesters return exactly
    that), which makes provenance observable on the real object.
 
+   Part 1b, overlapping calls: digest() runs its digesters outside the lock,
+   so a digest pass is split at its digester calls (PassBegin / PassStep) and
+   any other call - also further passes, of any number of threads - runs in
+   between; the pass-local variables disposed / errors / recycled belong to
+   the pass.  [run_case] runs this interleaved semantics (a sequential
+   history is the special case in which every call is [Atomic]).
+
    Part 2, lock discipline: call-graph type filled in by the translator
    (coq/gen/Gen_C13.v), decidable checks, and a one-lock abstract machine. *)
 From Coq Require Import ZArith List Bool String.
